@@ -1054,6 +1054,10 @@ func RunWorker(prop string, seed uint64, worker, cases int, out string) error {
 func runScenario(w *World, prop string, idx int) {
 	switch prop {
 	case "C03", "C18", "C10":
+		if prop == "C18" && idx%10 == 2 {
+			RunStaleMonitor(w, idx)
+			return
+		}
 		if prop == "C03" && idx%4 == 3 {
 			RunQuorumLossRace(w, idx)
 			return
@@ -1072,6 +1076,10 @@ func runScenario(w *World, prop string, idx int) {
 	default:
 		if (prop == "C02" || prop == "C04") && idx%10 == 9 {
 			RunConcurrent(w, idx)
+			return
+		}
+		if (prop == "C05" || prop == "C02") && idx%10 == 2 {
+			RunStaleMonitor(w, idx)
 			return
 		}
 		if (prop == "C02" || prop == "C05") && idx%10 == 7 {
